@@ -119,6 +119,29 @@ GenHalfVerdict(g, r) ==
   ELSE IF ~(\A j \in 2..Len(r.C) : Dot(Axial(r.C[j]), r.us) >= SENSE_MIN /\ Trace(r.C[j]) >= Trace(r.C[j - 1]) - T1) THEN "wrong-sense-of-rotation"
   ELSE "ok"
 
+\* frame(N), frame(N, up), lookat for general directions (integer vectors, normalised by the driver), in particular up vectors
+\* that are NEARLY parallel or anti-parallel to N / to the viewing direction.  frame(N, up) may fall back to frame(N) when up
+\* and N are "very parallel" (|cos| > 0.99): the first axis is only demanded along up x N when cos^2 < 9/10.
+\* record: m1 = frame(n / |n|), m2 = frame(n / |n|, up / |up|)
+CosSqBelow(x, y, num, den) == den * Dot(x, y) * Dot(x, y) < num * Dot(x, x) * Dot(y, y)           \* |x| <= 8 sqrt 3, |y| <= 136 sqrt 3, den <= 50: < 2^31
+GenFrameVerdict(g, r) ==
+  IF r.nan THEN "nan"
+  ELSE IF ~(InRangeM(r.m1) /\ InRangeM(r.m2)) THEN "out-of-range"
+  ELSE IF ~IsFrameS(r.m1, g.n) THEN "not-a-right-handed-orthonormal-frame-of-N"
+  ELSE IF ~IsFrameS(r.m2, g.n) THEN "frame(N,up)-is-not-a-right-handed-orthonormal-frame-of-N"
+  ELSE IF CosSqBelow(g.n, g.up, 9, 10) /\ ~AlongS(Col(r.m2, 1), Cross(g.up, g.n)) THEN "frame(N,up)-first-axis-is-not-along-up-x-N"
+  ELSE "ok"
+GenFrameClass(g) == IF Parallel(g.n, g.up) THEN "exactly-parallel" ELSE IF ~CosSqBelow(g.n, g.up, 49, 50) THEN (IF Dot(g.n, g.up) > 0 THEN "nearly-parallel" ELSE "nearly-antiparallel")
+                    ELSE IF CosSqBelow(g.n, g.up, 9, 10) THEN "generic" ELSE "threshold-zone"
+\* record: ls, ps = lookat(eye, point, up) (eye, point, up integer vectors; up not parallel to point - eye)
+GenLookatVerdict(g, r) ==
+  IF Parallel(VSub(g.point, g.eye), g.up) THEN "skip:up-parallel-to-view-direction"
+  ELSE IF r.nan THEN "nan"
+  ELSE IF ~(InRangeM(r.ls)) THEN "out-of-range"
+  ELSE IF IsLookatS(r.ls, r.ps, g.eye, g.point, g.up) THEN "ok" ELSE "not-the-lookat-frame"
+GenLookatClass(g) == LET d == VSub(g.point, g.eye) IN
+                     IF ~CosSqBelow(d, g.up, 49, 50) THEN (IF Dot(d, g.up) > 0 THEN "up-nearly-parallel" ELSE "up-nearly-antiparallel") ELSE "generic"
+
 \* ---------------------------------------------------------------------------
 \* (b) slerp between general unit quaternions qa = ha / |ha|, qb = hb / |hb| (ha, hb integer 4-vectors)
 \* ---------------------------------------------------------------------------
@@ -190,22 +213,40 @@ IsNormalS(ns, K, v, tol) == \A i \in 1..3 : Abs(Dot(Col(K, i), ns) - 8 * SC * v[
 \* affine maps A = (KA / 8, PA / 8), B likewise, point V / 8:  512 A(B(V / 8)) = KA (KB V + 8 PB) + 64 PA
 ComposedNum(KA, PA, KB, PB, V) == VAdd(Apply(KA, VAdd(Apply(KB, V), VScale(8, PB))), VScale(64, PA))
 IsComposedS(xs, KA, PA, KB, PB, V) == \A i \in 1..3 : Abs(xs[i] * 512 - ComposedNum(KA, PA, KB, PB, V)[i] * SC) <= 512 * 3
+\* The matrices handed to the library are K / 8 * 2^e (e in -16..16: the laws must not depend on the magnitude of the entries);
+\* the driver multiplies every recorded result by the exact power of two that undoes the scale (inverse 2^e, det 2^(-n e),
+\* det(AB) 2^(-2 n e), xfmNormal 2^e), so the laws below are those of K / 8.  Affine laws are recorded for e = 0 only.
+\* 2x2: orth = orthogonal() of M (the orthogonal polar factor does not depend on a positive scale).
 \* record: det, detb, detab, inv = inverse(M), minv = M inverse(M), invm = inverse(M) M; 3x3 also: rcp = rcp(A) as [l, p],
 \* rcpmul = rcp(A) A, normal[k] = xfmNormal(M, vs[k]), composed[k] = (A B)(vs[k] / 8), nested[k] = A(B(vs[k] / 8))
+\* every recorded number is small enough for the 32-bit evaluation of the laws (a correct result is far inside these bounds)
+AbsBelowV(vs, b) == \A i \in 1..Len(vs) : Abs(vs[i]) <= b
+AbsBelowM(Ms, b) == \A i \in 1..Len(Ms) : AbsBelowV(Ms[i], b)
+GenMatInRange(g, r) ==
+  /\ Abs(r.det) <= 1048576 /\ Abs(r.detb) <= 1048576 /\ Abs(r.detab) <= 67108864
+  /\ AbsBelowM(r.inv, 2097152) /\ AbsBelowM(r.minv, 2097152) /\ AbsBelowM(r.invm, 2097152)
+  /\ (Len(g.ka) = 3 => \A k \in DOMAIN g.vs : AbsBelowV(r.normal[k], 33554432))
+  /\ ((Len(g.ka) = 3 /\ g.e = 0) =>
+        /\ AbsBelowM(r.rcp.l, 2097152) /\ AbsBelowV(r.rcp.p, 16777216) /\ AbsBelowM(r.rcpmul.l, 2097152) /\ AbsBelowV(r.rcpmul.p, 2097152)
+        /\ \A k \in DOMAIN g.vs : AbsBelowV(r.composed[k], 2097152) /\ AbsBelowV(r.nested[k], 2097152))
 GenMatVerdict(g, r) ==
   LET n == Len(g.ka) I == SMul(SC, Ident(n)) IN
-  IF ~(EntriesOk(g.ka) /\ EntriesOk(g.kb)) THEN "skip:entries"
+  IF ~(EntriesOk(g.ka) /\ EntriesOk(g.kb) /\ g.e \in -16..16) THEN "skip:entries"
   ELSE IF ~(WellConditioned(g.ka) /\ WellConditioned(g.kb)) THEN "skip:condition"
+  ELSE IF Frob2(g.ka) < 64 \/ Frob2(g.kb) < 64 THEN "skip:norm-below-one"          \* |M|_F >= 1: |inverse(M)|_F <= 64, all records stay in range
+  ELSE IF n = 3 /\ ~(\A k \in DOMAIN g.vs : \A i \in 1..3 : Abs(g.vs[k][i]) <= 4) THEN "skip:entries"
   ELSE IF r.nan THEN "nan"
+  ELSE IF ~GenMatInRange(g, r) THEN "out-of-range"
   ELSE IF ~(IsDetS(r.det, g.ka) /\ IsDetS(r.detb, g.kb)) THEN "det-is-not-the-determinant"
   ELSE IF ~IsDetMulS(r.detab, g.ka, g.kb) THEN "det-is-not-multiplicative"
   ELSE IF ~IsInverseS(r.inv, g.ka) THEN "inverse-is-not-the-inverse"
   ELSE IF ~(NearM(r.minv, I, 2 + InvTol(r.inv)) /\ NearM(r.invm, I, 2 + InvTol(r.inv))) THEN "M-times-inverse-is-not-the-identity"
-  ELSE IF n = 2 THEN "ok"
+  ELSE IF n = 2 THEN (IF ~InRangeM(r.orth) THEN "out-of-range" ELSE IF IsOrthogonalOfS(r.orth, g.ka) THEN "ok" ELSE "orthogonal-is-not-the-closest-orthogonal-matrix")
+  ELSE IF ~(\A k \in DOMAIN g.vs : IsNormalS(r.normal[k], g.ka, g.vs[k], 2 + 4 * InvTol(r.inv))) THEN "xfmNormal-is-not-the-inverse-transpose"
+  ELSE IF g.e # 0 THEN "ok"
   ELSE IF ~IsInverseS(r.rcp.l, g.ka) THEN "rcp-linear-part-is-not-the-inverse"
   ELSE IF ~(\A i \in 1..3 : Abs(Dot(g.ka[i], r.rcp.p) + g.pa[i] * SC) <= RowAbs(g.ka, i) * (2 + InvTol(r.inv))) THEN "rcp-translation-is-not-minus-inverse-p"
   ELSE IF ~(NearM(r.rcpmul.l, I, 2 + InvTol(r.inv)) /\ NearV(r.rcpmul.p, <<0, 0, 0>>, 2 + 4 * InvTol(r.inv))) THEN "rcp(A)A-is-not-the-identity"
-  ELSE IF ~(\A k \in DOMAIN g.vs : IsNormalS(r.normal[k], g.ka, g.vs[k], 2 + 4 * InvTol(r.inv))) THEN "xfmNormal-is-not-the-inverse-transpose"
   ELSE IF ~(\A k \in DOMAIN g.vs : IsComposedS(r.composed[k], g.ka, g.pa, g.kb, g.pb, g.vs[k])) THEN "(AB)p-is-not-A(Bp)"
   ELSE IF ~(\A k \in DOMAIN g.vs : IsComposedS(r.nested[k], g.ka, g.pa, g.kb, g.pb, g.vs[k])) THEN "A(Bp)-is-not-the-composition"
   ELSE "ok"
